@@ -62,6 +62,13 @@ type Report struct {
 // returns the path of overlay.json.
 func Generate(repo, outDir string) (string, *Report, error) {
 	rep := &Report{}
+	var err error
+	if repo, err = filepath.Abs(repo); err != nil {
+		return "", nil, err
+	}
+	if outDir, err = filepath.Abs(outDir); err != nil {
+		return "", nil, err
+	}
 	if err := os.RemoveAll(outDir); err != nil {
 		return "", nil, err
 	}
@@ -76,7 +83,7 @@ func Generate(repo, outDir string) (string, *Report, error) {
 	replace[filepath.Join(repo, "verifhook", "hook.go")] = hookPath
 
 	var files []string
-	err := filepath.Walk(repo, func(p string, info os.FileInfo, err error) error {
+	err = filepath.Walk(repo, func(p string, info os.FileInfo, err error) error {
 		if err != nil {
 			return err
 		}
